@@ -344,9 +344,11 @@ func Eval(in *Input) *Result {
 				for _, tr := range p.Tags {
 					v := TagValue(tr.Rule, it.Path)
 					nt.Tags[tr.Key] = v
-					// the component mutates the record shared with the producer and rewrites its file
-					if it.Audit != nil {
-						it.Audit.Tags[tr.Key] = v
+				}
+				// the record written for the file carries the tags the incoming IP had in memory plus the new ones
+				if it.Audit != nil {
+					for k, v := range nt.Tags {
+						it.Audit.Tags[k] = v
 					}
 				}
 				r.Out[name+".out"] = append(r.Out[name+".out"], nt)
